@@ -924,6 +924,16 @@ def f_union_only_null():
 
 
 @failing
+def f_union_nullable_single_member():
+    # union[null, int]: the common "nullable value" idiom. isSet is assigned but never read when hasNull is true and
+    # there are fewer than two members.
+    m = Manifest("union-nullable-single-member", "verifcorpus/failing/unionnullablesingle")
+    u = m.union("f", "MaybeInt", [("int", INT32)], has_null=True, doc="union[null, int]")
+    m.record("f", "Holder", [F("u", u, opt=True)])
+    return m
+
+
+@failing
 def f_case_only_type_names():
     m = Manifest("case-only-type-names", "verifcorpus/failing/caseonly")
     m.record("f", "Item", [F("a", INT32)])
